@@ -106,21 +106,60 @@ struct CliRun {
     signal: bool,
 }
 
-fn run_cli(naija: &str, args: &[&str], stdin: Option<&str>) -> std::io::Result<CliRun> {
+/// `cuts`: byte offsets at which the writer pauses (the text reaches the pipe in several bursts,
+/// as from a slow producer); empty = one write.
+fn run_cli(naija: &str, args: &[&str], stdin: Option<&str>, cuts: &[usize]) -> std::io::Result<CliRun> {
     let mut cmd = Command::new(naija);
     cmd.args(args).stdout(Stdio::piped()).stderr(Stdio::piped());
     cmd.stdin(if stdin.is_some() { Stdio::piped() } else { Stdio::null() });
     let mut child = cmd.spawn()?;
     if let Some(text) = stdin {
         let mut pipe = child.stdin.take().unwrap();
-        let text = text.to_string();
+        let text = text.as_bytes().to_vec();
+        let cuts = cuts.to_vec();
         std::thread::spawn(move || {
-            let _ = pipe.write_all(text.as_bytes());
+            let mut at = 0;
+            for c in cuts {
+                let c = c.min(text.len());
+                if c > at {
+                    if pipe.write_all(&text[at..c]).is_err() {
+                        return;
+                    }
+                    let _ = pipe.flush();
+                    at = c;
+                }
+                std::thread::sleep(std::time::Duration::from_millis(BURST_PAUSE_MS));
+            }
+            let _ = pipe.write_all(&text[at..]);
         });
     }
     let out = child.wait_with_output()?;
     Ok(CliRun { stdout: out.stdout, code: out.status.code(), signal: out.status.code().is_none() })
 }
+
+const BURST_PAUSE_MS: u64 = 120;
+
+/// Texts at the edges of the three input modes, run before the generated ones: the empty program,
+/// blank and comment-only texts, a missing final line break, CRLF, a leading byte-order-like blank.
+const EDGE_TEXTS: &[&str] = &[
+    "",
+    " ",
+    "\n",
+    "\n\n\n",
+    "\t",
+    "#",
+    "# only a comment",
+    "# only a comment\n",
+    "shout(1)",
+    "shout(1)\r\nshout(2)\r\n",
+    "shout(\"é\")",
+    "   shout(1)   ",
+    "\n\nshout(zz_nope)",
+    "shout(1 divide 0)",
+    "make",
+    "\"",
+    "é",
+];
 
 fn stage_cli(ctx: &mut Ctx) {
     let naija = ctx.opt("naija").expect("--naija").to_string();
@@ -128,10 +167,23 @@ fn stage_cli(ctx: &mut Ctx) {
     for idx in ctx.indices() {
         ctx.out.begin(idx);
         let mut rng = Rng::new(util::case_seed(ctx.seed, "ship", idx));
-        let Some((src, deep)) = program(&mut rng, idx, true) else {
+        let edge = EDGE_TEXTS.get(idx as usize).map(|t| (t.to_string(), false));
+        let Some((src, deep)) = edge.clone().or_else(|| program(&mut rng, idx, true)) else {
             ctx.out.discarded += 1;
             continue;
         };
+        if edge.is_some() {
+            ctx.out.tag("edge-text");
+        }
+        // every fourth text also reaches standard input in bursts, cut anywhere (inside a
+        // multi-byte character too)
+        let mut cuts: Vec<usize> = Vec::new();
+        if idx % 4 == 1 && src.len() >= 2 {
+            for _ in 0..rng.range(1, 3) {
+                cuts.push(1 + rng.usize(src.len() - 1));
+            }
+            cuts.sort_unstable();
+        }
         let lib = match util::guarded(|| pipeline::run_source(&src, RunCfg { allow_process: true, ..RunCfg::default() })) {
             Ok(r) => r,
             Err((msg, loc)) => {
@@ -143,18 +195,21 @@ fn stage_cli(ctx: &mut Ctx) {
         let expect_ok = lib.accepted && lib.ending == "ok";
         let path = format!("{scratch}/case-{}-{idx}.ns", ctx.shard);
         std::fs::write(&path, &src).expect("write script");
-        let modes: [(&str, Vec<&str>, Option<&str>, &str); 3] = [
+        let mut modes: Vec<(&str, Vec<&str>, Option<&str>, &str)> = vec![
             ("file", vec![path.as_str()], None, path.as_str()),
             ("eval", vec!["--eval", src.as_str()], None, "<eval>"),
             ("stdin", vec!["-"], Some(src.as_str()), "<stdin>"),
         ];
+        if !cuts.is_empty() {
+            modes.push(("stdin-in-bursts", vec!["-"], Some(src.as_str()), "<stdin>"));
+        }
         let mut all_ok = true;
         for (mode, args, stdin, fname) in modes {
             // the deep-recursion programs differ legitimately in how far they get before the
             // stack budget trips only if the budget is measured from different bases; compare them too
             ctx.out.evaluations += 1;
-            let replay = json!({"src": src, "mode": mode});
-            let run = match run_cli(&naija, &args, stdin) {
+            let replay = json!({"src": src, "mode": mode, "cuts": cuts});
+            let run = match run_cli(&naija, &args, stdin, if mode == "stdin-in-bursts" { &cuts } else { &[] }) {
                 Ok(r) => r,
                 Err(e) => {
                     ctx.out.inconclusive(idx, "could not run the CLI", json!({"error": e.to_string()}));
